@@ -37,6 +37,9 @@ def run(case, rec):
     eng = Engine(case["spec"], typed=case.get("typed", False), spec2=case.get("spec2"), flavour=flavour, known=engine_known(rec))
     fl = eng.fl
     rec.cls(f"flavour={flavour}")
+    if eng.build_problems:
+        rec.fail("data_id-rule:initial-add", eng.build_problems[0])
+        return
     ids_ever = set()
     hit_clone_group = False
     calc = None
